@@ -8,6 +8,7 @@ is supported; anything else is an AnalysisError naming the construct.
 """
 
 import ast
+import itertools
 import math
 import re
 
@@ -84,11 +85,31 @@ class Interp(object):
         're.escape': re.escape,
         're.compile': re.compile,
         'numbers.Number': NUMBER,
+        'sorted': sorted,
+        'sum': sum,
+        'zip': lambda *a: list(zip(*a)),
+        'reversed': lambda x: list(reversed(x)),
+        'range': lambda *a: list(range(*a)),
+        'iter': iter,
+        'next': next,
+        # pure itertools helpers, applied with evaluator-level callables
+        'itertools.dropwhile': self._dropwhile,
+        'itertools.takewhile': self._takewhile,
+        'itertools.chain': lambda *a: list(itertools.chain(*a)),
+        'itertools.islice': lambda *a: list(itertools.islice(*a)),
     }
     if extra_globals:
       self.globals.update(extra_globals)
     self.steps = 0
     self.max_steps = max_steps
+
+  def _dropwhile(self, pred, seq):
+    return list(itertools.dropwhile(
+        lambda x: self.truth(self.apply(pred, [x], {})), list(seq)))
+
+  def _takewhile(self, pred, seq):
+    return list(itertools.takewhile(
+        lambda x: self.truth(self.apply(pred, [x], {})), list(seq)))
 
   @staticmethod
   def _isnan(x):
